@@ -277,7 +277,7 @@ theorem chunks_getElem (bw : Nat) : ∀ (k : Nat) (bs : List Nat) (t : Nat) (h :
       simp only [chunks, List.getElem_cons_succ]
       rw [ih]; simp [Nat.add_mul, Nat.add_comm]
 
-/-- the digits denoted by a little-endian byte string; the partial top digit is padded with `pad` -/
+/-- the digits denoted by a little-endian byte string; the incomplete top digit is padded with `pad` -/
 def digitsLE (bw pad : Nat) (bs : List Nat) : List Nat :=
   (chunks bw (bs.length / bw) bs).map (U 8) ++
     (if bs.length % bw = 0 then []
@@ -582,7 +582,10 @@ theorem S_sign_extend {w n : Nat} {x : List Nat} (hw : 1 ≤ w) (hn : 1 ≤ n) (
     · simp only [hneg, if_true]
       have hum := U_replicate_max w k
       have h2 : toInt (M w n) (U w x) = (U w x : Int) - M w n := by
-        unfold toInt at hneg ⊢; split at hneg <;> simp_all <;> omega
+        unfold toInt at hneg ⊢
+        split at hneg
+        · omega
+        · rename_i hc; rw [if_neg hc]
       rw [h2]
       generalize U w (List.replicate k (B w - 1)) = r at *
       rw [← hum]; push_cast
@@ -842,6 +845,7 @@ theorem S_takePad {w n : Nat} (hw : 1 ≤ w) (hn : 1 ≤ n) (D : List Nat) (hne 
     exact (S_truncate hw hn hD hL hrep).1
 /-- a byte string -/
 def Bytes (bs : List Nat) : Prop := ∀ b ∈ bs, b < 256
+instance (bs : List Nat) : Decidable (Bytes bs) := by unfold Bytes; exact inferInstance
 
 theorem B8 : B 8 = 256 := by unfold B; rfl
 theorem B_bytes (bw : Nat) : B (8 * bw) = M 8 bw := rfl
@@ -1398,4 +1402,144 @@ theorem UI.fromLeBytes_value {bw sh : Nat} (hbw : bw = 2 ^ sh) {n : Nat} {bytes 
   refine ⟨_, UI.fromLeBytes_eq hbw hlen, ⟨by simp [chunks_length], ?_⟩, ?_⟩
   · exact chunks_lt bw n bytes hb (by omega)
   · rw [U_chunks bw n bytes (by omega), List.take_of_length_le (by omega)]
+namespace Endian
+theorem Prim.swapBytes_lt (bw d : Nat) : Prim.swapBytes bw d < B (8 * bw) := by
+  unfold Prim.swapBytes Prim.fromBeBytes
+  rw [B_bytes]
+  apply U_lt
+  have := WF_ofNat 8 bw d
+  exact ⟨by simp [Prim.toLeBytes, this.1], fun b hb => this.2 b (List.mem_reverse.mp hb)⟩
+
+/-- the bytes of a swapped digit are the reversed bytes -/
+theorem Prim.toLeBytes_swapBytes (bw d : Nat) :
+    Prim.toLeBytes bw (Prim.swapBytes bw d) = (Prim.toLeBytes bw d).reverse := by
+  unfold Prim.swapBytes Prim.fromBeBytes
+  apply toLeBytes_U
+  have := WF_ofNat 8 bw d
+  exact ⟨by simp [Prim.toLeBytes, this.1], fun b hb => this.2 b (List.mem_reverse.mp hb)⟩
+
+theorem Prim.swapBytes_swapBytes {bw d : Nat} (hd : d < B (8 * bw)) :
+    Prim.swapBytes bw (Prim.swapBytes bw d) = d := by
+  have h := Prim.toLeBytes_swapBytes bw d
+  have : Prim.swapBytes bw (Prim.swapBytes bw d)
+      = Prim.fromBeBytes (Prim.toLeBytes bw (Prim.swapBytes bw d)) := rfl
+  rw [this, h]
+  unfold Prim.fromBeBytes
+  rw [List.reverse_reverse, U_toLeBytes hd]
+
+theorem swapBytes_WF {bw n : Nat} {x : List Nat} (hx : x.length = n) :
+    WF (8 * bw) n (swapBytes bw x) := by
+  refine ⟨by simp [swapBytes, hx], ?_⟩
+  intro d hd
+  unfold swapBytes at hd
+  rw [List.mem_map] at hd
+  obtain ⟨e, _, rfl⟩ := hd
+  exact Prim.swapBytes_lt bw e
+
+/-- `swap_bytes` is an involution -/
+theorem swapBytes_swapBytes {bw n : Nat} {x : List Nat} (hx : WF (8 * bw) n x) :
+    swapBytes bw (swapBytes bw x) = x := by
+  unfold swapBytes
+  rw [← List.map_reverse, List.reverse_reverse, List.map_map]
+  conv_rhs => rw [← List.map_id x]
+  apply List.map_congr_left
+  intro d hd
+  exact Prim.swapBytes_swapBytes (hx.2 d hd)
+
+/-- `swap_bytes` reverses the byte order of the pattern -/
+theorem bytesOf_swapBytes (bw : Nat) (x : List Nat) :
+    bytesOf bw (swapBytes bw x) = (bytesOf bw x).reverse := by
+  unfold bytesOf swapBytes
+  rw [List.reverse_flatMap, List.flatMap_def, List.flatMap_def, List.map_map]
+  congr 2
+  funext d
+  exact Prim.toLeBytes_swapBytes bw d
+end Endian
+
+theorem UI.toBe_def (e : Bool) (bw : Nat) (x : List Nat) :
+    UI.toBe e bw x = if e then swapBytes bw x else x := rfl
+theorem UI.toLe_def (e : Bool) (bw : Nat) (x : List Nat) :
+    UI.toLe e bw x = if e then x else swapBytes bw x := rfl
+theorem UI.fromBe_toBe {bw n : Nat} (e : Bool) {x : List Nat} (hx : WF (8 * bw) n x) :
+    UI.fromBe e bw (UI.toBe e bw x) = x := by
+  unfold UI.toBe UI.fromBe; cases e <;> simp [swapBytes_swapBytes hx]
+theorem UI.fromLe_toLe {bw n : Nat} (e : Bool) {x : List Nat} (hx : WF (8 * bw) n x) :
+    UI.fromLe e bw (UI.toLe e bw x) = x := by
+  unfold UI.toLe UI.fromLe; cases e <;> simp [swapBytes_swapBytes hx]
+theorem UI.toBe_WF {bw n : Nat} (e : Bool) {x : List Nat} (hx : WF (8 * bw) n x) :
+    WF (8 * bw) n (UI.toBe e bw x) := by
+  unfold UI.toBe UI.fromBe; cases e
+  · simpa using hx
+  · simpa using swapBytes_WF hx.1
+theorem UI.toLe_WF {bw n : Nat} (e : Bool) {x : List Nat} (hx : WF (8 * bw) n x) :
+    WF (8 * bw) n (UI.toLe e bw x) := by
+  unfold UI.toLe UI.fromLe; cases e
+  · simpa using swapBytes_WF hx.1
+  · simpa using hx
+namespace Endian
+theorem leBytes_eq (k v : Nat) : leBytes k v = ofNat 8 k v := by
+  induction k generalizing v with
+  | zero => rfl
+  | succ k ih => rw [leBytes, ofNat, ih, B8]
+
+/-- the model's byte pattern is the `N*BYTES` little-endian bytes of the pattern value -/
+theorem bytesOf_eq_leBytes {bw n : Nat} {x : List Nat} (hx : WF (8 * bw) n x) :
+    bytesOf bw x = leBytes (n * bw) (U (8 * bw) x) := by
+  rw [leBytes_eq, ← U_bytesOf hx]
+  have hwf : WF 8 (n * bw) (bytesOf bw x) := by
+    have := (Bytes_bytesOf bw x).wf
+    rwa [bytesOf_length, hx.1] at this
+  exact eq_ofNat hwf
+
+theorem U_swapBytes {bw n : Nat} {x : List Nat} (hx : WF (8 * bw) n x) :
+    U (8 * bw) (swapBytes bw x) = swapPattern (n * bw) (U (8 * bw) x) := by
+  unfold swapPattern
+  rw [beValue_eq, ← bytesOf_eq_leBytes hx, ← bytesOf_swapBytes, U_bytesOf (swapBytes_WF hx.1)]
+
+theorem M_eq_two_H {w n : Nat} (hw : 1 ≤ w) (hn : 1 ≤ n) : M w n = 2 * H w n := by
+  unfold M H
+  have : 1 ≤ w * n := Nat.mul_le_mul hw hn
+  obtain ⟨k, hk⟩ := Nat.exists_eq_add_of_le this
+  rw [hk, Nat.add_comm, Nat.pow_succ]; simp; omega
+
+theorem repS_iff_H {w n : Nat} (hw : 1 ≤ w) (hn : 1 ≤ n) (z : Int) :
+    repS (M w n) z ↔ (-(H w n : Int) ≤ z ∧ z < H w n) := by
+  unfold repS; rw [M_eq_two_H hw hn]; push_cast; omega
+
+/-- a long two's-complement byte string fits `K` bytes iff the excess is pure sign padding -/
+theorem twos_fits_iff {K : Nat} (hK : 1 ≤ K) {bs : List Nat} (hb : Bytes bs) (hL : K ≤ bs.length) :
+    repS (M 8 K) (S 8 bs) ↔
+      bs.drop K = List.replicate (bs.length - K) (if S 8 (bs.take K) < 0 then 255 else 0) := by
+  have hD : ∀ d ∈ bs, d < B 8 := by rw [B8]; exact hb
+  have hX := WF_take hD hL
+  constructor
+  · intro hrep
+    obtain ⟨h1, h2⟩ := S_truncate (w := 8) (by decide) hK hD hL hrep
+    rw [signBits_decide, B8] at h2
+    rw [h1]
+    conv_lhs => rw [h2]
+    rw [List.drop_append_of_le_length (by simp [hL])]
+    simp
+  · intro h
+    have hext := S_sign_extend (w := 8) (by decide) hK hX (bs.length - K)
+    rw [B8, ← h, List.take_append_drop] at hext
+    rw [hext]; exact S_repS (by decide) hK hX
+
+/-- an over-long unsigned byte string fits iff the excess bytes are zero -/
+theorem le_fits_iff {K : Nat} {bs : List Nat} (hb : Bytes bs) (hL : K ≤ bs.length) :
+    U 8 bs < M 8 K ↔ ∀ b ∈ bs.drop K, b = 0 := by
+  have hD : ∀ d ∈ bs, d < B 8 := by rw [B8]; exact hb
+  rw [← U_eq_zero_iff 8, U_split 8 K bs hL]
+  have h1 := U_lt (WF_take hD hL)
+  have hM := M_pos 8 K
+  generalize U 8 (bs.drop K) = r
+  generalize U 8 (bs.take K) = t at *
+  generalize M 8 K = m at *
+  constructor
+  · intro h
+    by_contra hr
+    have : m * 1 ≤ m * r := Nat.mul_le_mul_left _ (by omega)
+    omega
+  · intro h; subst h; simpa using h1
+end Endian
 end Bnum
